@@ -460,14 +460,15 @@ func (t *distributedTarget) saveObject(obj object.Object, encObj encodedObject) 
 
 	leftReplicas := maxReplicas
 
-	handleECRule := func(ruleIdx int, ecRuleIdx int, payloadParts [][]byte, ecRule iec.Rule) (bool, error) {
+	// pos is the position of the rule in the processing order, ruleIdx is its index in objNodeLists.
+	handleECRule := func(pos, ruleIdx, ecRuleIdx int, payloadParts [][]byte, ecRule iec.Rule) (bool, error) {
 		err := t.applyECRule(t.sessionSigner, obj, ecRuleIdx, payloadParts, ecRule, objNodeLists[ruleIdx])
 		if err != nil {
 			err = fmt.Errorf("apply EC rule #%d (%s): %w", ecRuleIdx, ecRules[ecRuleIdx], err)
 			if maxReplicas == 0 {
 				return false, err
 			}
-			if leftReplicas > sumLimitsSinceRule(ruleIdx+1) {
+			if leftReplicas > sumLimitsSinceRule(pos+1) {
 				return false, newMaxReplicasError(maxReplicas, maxReplicas-leftReplicas, ruleIdx, err)
 			}
 			t.placementIterator.log.Info("PUT by EC rule failure", zap.Stringer("object", obj.Address()), zap.Error(err))
@@ -486,7 +487,6 @@ func (t *distributedTarget) saveObject(obj object.Object, encObj encodedObject) 
 	var repProg *repProgress
 	var l *zap.Logger
 
-nextRule:
 	for i := range ruleNum {
 		ruleIdx := getRuleIdx(i)
 
@@ -495,30 +495,13 @@ nextRule:
 				continue
 			}
 
-			if slices.Contains(ecRules[:ecRuleIdx], ecRules[ecRuleIdx]) { // has already been processed, see below
-				continue
-			}
-
-			payloadParts := t.encodedECParts[ruleIdx]
-			fin, err := handleECRule(ruleIdx, ecRuleIdx, payloadParts, ecRules[ecRuleIdx])
+			// every rule has its own node list, identical rules included
+			fin, err := handleECRule(i, ruleIdx, ecRuleIdx, t.encodedECParts[ecRuleIdx], ecRules[ecRuleIdx])
 			if err != nil {
 				return err
 			}
 			if fin {
 				break
-			}
-
-			for j := ecRuleIdx + 1; j < len(ecRules); j++ {
-				if ecRules[ecRuleIdx] != ecRules[j] {
-					continue
-				}
-				fin, err := handleECRule(i, j, payloadParts, ecRules[ecRuleIdx])
-				if err != nil {
-					return err
-				}
-				if fin {
-					break nextRule
-				}
 			}
 
 			continue
